@@ -141,7 +141,7 @@ def frexp_model(ex, x, n):
     e_norm = z3.ZeroExt(32 - eb, E) - bv(bias - 1, 32); e_sub = h - bv(bias + mb - 2, 32)
     isz = z3.And(E == 0, M == 0); sub = z3.And(E == 0, M != 0); spec = E == bv((1 << eb) - 1, eb)
     m = z3.If(z3.Or(isz, spec), b, z3.Concat(sign, half, z3.If(sub, Mn, M)))
-    e = z3.If(isz, bv(0, 32), z3.If(spec, ex.fresh(32, 'frexp_unspec'), z3.If(sub, e_sub, e_norm)))
+    e = z3.If(isz, bv(0, 32), z3.If(spec, _uf(ex, 'frexp_unspec_e%d' % n, [z3.BitVecSort(n), z3.BitVecSort(32)])(b), z3.If(sub, e_sub, e_norm)))   # unspecified but deterministic (same x => same e)
     return FV(n, bits=m), e
 def ldexp_model(x, e, n):
     """C ldexp/scalbn: x * 2^e rounded once (RNE) to the format, overflow -> inf, gradual underflow; zero/inf/NaN returned unchanged.
@@ -158,7 +158,8 @@ def ldexp_model(x, e, n):
 def rcall(ex, b, n, args):
     x = args[0].r
     if b == 'sqrt':
-        y = ex.fresh_real('sqrt'); ex.axioms.append(z3.And(y >= 0, y * y == x)); ex.oblige('domain', x < 0, 'sqrt of negative'); return RV(n, y)
+        y = ex.fresh_real('sqrt'); ex.axioms.append(z3.And(y >= 0, y * y == x)); ex.oblige('domain', x < 0, 'sqrt of negative')
+        ex.__dict__.setdefault('sqrt_log', []).append((x, y)); return RV(n, y)      # (argument, variable) in execution order, for lemma chains
     if b == 'fabs': return RV(n, z3.If(x >= 0, x, -x))
     if b == 'floor': return RV(n, z3.ToReal(z3.ToInt(x)))
     if b == 'ceil': return RV(n, -z3.ToReal(z3.ToInt(-x)))
